@@ -29,7 +29,16 @@ KINDS_MULTI = ['simple', 'contract', 'storage', 'transport', 'transport', 'ext_t
 KINDS_ANY = ['simple', 'contract', 'transport', 'ext_transport', 'storage', 'storage2', 'multi', 'orderbook', 'scaled',
              'structured', 'plant', 'chp']
 SF_KINDS = ['first', 'before', 'last', 'in_last', 'end', 'after', 'mid', 'mid', 'mid', 'offgrid', 'offgrid', 'second']
-COST_KEY_PREFIX = ('p', 'ec', 'tc')
+# sampled series that enter the cost vector: the `price` of an asset ('p..') and the further cost parameters that may be given as
+# key into the price dict: extra_costs ('ec..'), Transport costs_time_series ('tc..'), CHP/Plant start_costs ('sc..') and
+# running_costs ('rc..').  (Storage cost_in / cost_out / cost_store are numbers only.)
+AUX_KEY_PREFIX = ('ec', 'tc', 'sc', 'rc')
+COST_KEY_PREFIX = ('p',) + AUX_KEY_PREFIX
+# sample modes in which all samples share the present part of every sampled series (the premise of the statement)
+HOW_SHARED_PRESENT = ('perturb', 'identical', 'aux_only', 'price_only', 'variants', 'zero_aux')
+# kinds of the family 'keyed' (cost parameters other than `price` given as keys)
+KINDS_KEYED = ['simple', 'simple', 'contract', 'contract', 'multi', 'transport', 'ext_transport', 'plant_lp', 'plant_lp', 'storage', 'scaled']
+KINDS_KEYED_MIP = KINDS_KEYED + ['plant', 'plant', 'chp', 'chp']
 warnings.filterwarnings('ignore', category=FutureWarning)
 
 
@@ -119,15 +128,189 @@ def gen_straddle_case(rnd):
     return {'scn': s, 'sf': gen.iso(sf), 'sf_kind': 'straddle', 'samples': samples, 'family': 'straddle', 'how': 'perturb'}
 
 
+def key_costs(rnd, s, prob):
+    """widening of a generated portfolio: cost parameters other than `price` become KEYS into the price dict (and are then part of
+    what the samples vary): extra_costs of the contract types and plants, costs_time_series of the transports, start_costs /
+    running_costs of plants that have them.  All series are strictly positive, see `positive_aux`."""
+    g = s['grid']
+    T = len(g['_pts']) - 1
+    prices = s['prices']
+    inner = set(id(b) for a in s['assets'] for b in a.get('inner', []))
+
+    def new(prefix, lo, hi):
+        k = '%s%d' % (prefix, len(prices))
+        prices[k] = [gen.q8(rnd, lo, hi) for _ in range(T)]
+        return k
+    for a in scen.all_asset_specs(s):
+        t, args = a['type'], a.get('args', {})
+        if t in ('SimpleContract', 'Contract', 'MultiCommodityContract', 'Plant', 'CHPAsset', 'CHPAsset_with_min_load_costs'):
+            if not isinstance(args.get('extra_costs'), str) and rnd.random() < prob:
+                args['extra_costs'] = new('ec', 0.125, 3)
+        if t in ('Transport', 'ExtendedTransport') and id(a) not in inner:   # (gen.py keeps the transport inside a structured asset free of it)
+            if args.get('costs_time_series') is None and rnd.random() < prob:
+                args['costs_time_series'] = new('tc', 0.125, 2)
+        if t in ('Plant', 'CHPAsset', 'CHPAsset_with_min_load_costs'):
+            if 'start_costs' in args and not isinstance(args['start_costs'], str) and rnd.random() < prob:
+                args['start_costs'] = new('sc', 0.5, 4)
+            if 'running_costs' in args and not isinstance(args['running_costs'], str) and rnd.random() < prob:
+                args['running_costs'] = new('rc', 0.125, 1)
+    return s
+
+
+def positive_aux(s):
+    """TODO(restriction, reported): SimpleContract.setup_optim_problem (eaopack/assets.py:762) uses ONE variable per step when the
+    extra_costs series is zero on the whole window of the asset and TWO otherwise (CHPAsset, assets.py:1496, drops the start variables
+    when the start_costs series is all zero): a sample in which such a series vanishes gives a cost vector of another length than
+    the problem, and make_slp / the robust target raise (IndexError / ValueError).  The streams keep every such series strictly
+    positive in the problem and in all samples."""
+    for k, v in s['prices'].items():
+        if k.startswith(AUX_KEY_PREFIX):
+            s['prices'][k] = [x if x > 0 else 0.125 for x in v]
+
+
+def gen_samples(rnd, prices, nS, how, first_f):
+    """nS samples of the sampled series.
+    perturb / perturb_all: every cost series is perturbed independently in every sample (future part / everywhere);
+    aux_only:   the `price` series are those of the problem, the OTHER cost series (extra_costs, transport costs, start / running
+                costs given as keys) differ in the future;   price_only: the other way round;
+    variants:   every series has a small pool of future variants (the problem's own curve and one or two others), every sample
+                picks one per series: samples share some curves and differ in others, in all combinations."""
+    def perturbed(key, v, lo):
+        v = list(v)
+        for t in range(lo, len(v)):
+            v[t] = v[t] + gen.q8(rnd, -8, 8)
+            if not key.startswith('p'):
+                v[t] = abs(v[t]) + (0.125 if how in ('aux_only', 'price_only', 'variants') or v[t] == 0 else 0.0)
+        return v
+    pools = {}
+    if how == 'variants':
+        for key, vals in prices.items():
+            if key.startswith(COST_KEY_PREFIX):
+                pools[key] = [list(vals)] + [perturbed(key, vals, first_f) for _ in range(rnd.choice([1, 1, 2]))]
+    samples = []
+    for _ in range(nS):
+        ps = {}
+        for key, vals in prices.items():
+            v = list(vals)
+            if key.startswith(COST_KEY_PREFIX):
+                isp = key.startswith('p')
+                if how in ('perturb', 'perturb_all'):
+                    v = perturbed(key, vals, 0 if how == 'perturb_all' else first_f)
+                elif (how == 'aux_only' and not isp) or (how == 'price_only' and isp):
+                    v = perturbed(key, vals, first_f)
+                elif how == 'variants':
+                    v = list(rnd.choice(pools[key]))
+            ps[key] = v
+        samples.append(ps)
+    return samples
+
+
+OTHER_ZONES = ['UTC', 'Asia/Tokyo', 'US/Pacific', 'Europe/London']
+
+
+def gen_linked_portfolio(rnd):
+    """a LinkedAsset (eaopack.portfolio) in the portfolio: two wrapped assets at a power and a heat node - a CHP with `on` variables
+    (asset 2, variable bool_on) and a second unit (asset 1, variable disp at the power node) that may only dispatch once the CHP has
+    been on for time_back (and must stop time_forward before the CHP goes off).  All wrapped assets live on the whole horizon
+    (differing windows of wrapped assets are a separate matter).  Mixed integer: evaluated as the other streams do for MIP plants."""
+    grids = [g for g in gen.GRIDS if (g[0], g[1]) in (('h', 'h'), ('d', 'd'), ('2h', 'h'), ('4h', 'h'))]
+    g = gen.gen_grid(rnd, tmin=3, tmax=6, tz_prob=0.1, grids=grids)
+    T = len(g['_pts']) - 1
+    step_u = {'h': 1, 'd': 1, '2h': 2, '4h': 4}[g['freq']]     # one step in the main time unit
+    prices = {}
+    n1, n2 = 'N1', 'N2'
+    assets = [{'type': 'SimpleContract', 'name': 'mkt1', 'nodes': [n1], 'args': {'min_cap': -40.0, 'max_cap': 40.0, 'price': gen.price_key(rnd, prices, T)}}]
+    heat = {'type': 'SimpleContract', 'name': 'heat2', 'nodes': [n2], 'args': {'min_cap': -gen.q8(rnd, 1, 8), 'max_cap': 0.0, 'price': gen.price_key(rnd, prices, T)}}
+    if rnd.random() < 0.3:
+        heat['args']['min_cap'] = heat['args']['max_cap'] = -gen.q8(rnd, 0.5, 2)    # a heat demand that must be met
+        assets.append({'type': 'SimpleContract', 'name': 'boiler3', 'nodes': [n2], 'args': {'min_cap': 0.0, 'max_cap': 10.0, 'price': gen.price_key(rnd, prices, T, lo=10, hi=30)}})
+    assets.append(heat)
+    a2 = gen.gen_plant(rnd, g, prices, T, 'lk_a', [n1, n2], chp=True, allow_mip=True)
+    a2['args'].setdefault('min_cap', gen.q8(rnd, 0.5, 2))      # `on` variables exist
+    kind1 = rnd.choice(['chp', 'chp', 'plant', 'simple'])
+    if kind1 == 'chp':
+        a1 = gen.gen_plant(rnd, g, prices, T, 'lk_b', [n1, n2], chp=True, allow_mip=rnd.random() < 0.5)
+    elif kind1 == 'plant':
+        a1 = gen.gen_plant(rnd, g, prices, T, 'lk_b', [n1], chp=False, allow_mip=rnd.random() < 0.5)
+    else:   # a supply contract (one variable `disp` per step)
+        a1 = {'type': 'SimpleContract', 'name': 'lk_b', 'nodes': [n1], 'args': {'min_cap': 0.0, 'max_cap': gen.q8(rnd, 1, 6), 'price': gen.price_key(rnd, prices, T)}}
+    largs = {'asset1_variable': ['lk_b', 'disp', n1], 'asset2_variable': ['lk_a', 'bool_on', None],
+             'time_back': rnd.choice([0, 1, 1, 2]) * step_u}
+    if rnd.random() < 0.3:
+        largs['time_forward'] = rnd.choice([1, 2]) * step_u
+    if rnd.random() < 0.3:
+        largs['asset2_time_already_running'] = float(rnd.choice([0, 1, 3]) * step_u)
+    assets.append({'type': 'LinkedAsset', 'name': 'linked', 'nodes': [n1, n2], 'inner': [a2, a1], 'args': largs})
+    if rnd.random() < 0.4:
+        assets.append(gen.gen_simple_contract(rnd, g, prices, T, 'sc%d' % (len(assets) + 1), rnd.choice([n1, n2])))
+    return {'grid': g, 'nodes': [n1, n2], 'prices': prices, 'assets': assets}
+
+
+def gen_zero_aux_case(rnd):
+    """PROBE (known finding F-17m, see positive_aux): a sampled extra_costs (SimpleContract / Contract) or start_costs (CHPAsset)
+    series that is identically zero in some scenarios and not in others.  All scenarios share the present part of every series
+    (the series in question is zero there); in the future it is positive in some scenarios and zero in at least one."""
+    grids = [g for g in gen.GRIDS if (g[0], g[1]) in (('h', 'h'), ('d', 'd'), ('4h', 'h'))]
+    g = gen.gen_grid(rnd, tmin=3, tmax=6, tz_prob=0.0, grids=grids)
+    T = len(g['_pts']) - 1
+    prices = {}
+    n1, n2 = 'N1', 'N2'
+    assets = [{'type': 'SimpleContract', 'name': 'mkt1', 'nodes': [n1], 'args': {'min_cap': -40.0, 'max_cap': 40.0, 'price': gen.price_key(rnd, prices, T)}}]
+    what = rnd.choice(['extra_costs', 'extra_costs', 'start_costs'])
+    nodes = [n1]
+    if what == 'extra_costs':
+        a = {'type': rnd.choice(['SimpleContract', 'Contract']), 'name': 'zc2', 'nodes': [n1],
+             'args': {'min_cap': -gen.q8(rnd, 0.5, 4), 'max_cap': gen.q8(rnd, 0.5, 4), 'price': gen.price_key(rnd, prices, T)}}
+        if a['type'] == 'Contract' and rnd.random() < 0.6:
+            a['args']['max_take'] = gen.take_dict(rnd, g, 2, 30)
+        key = 'ec%d' % len(prices)
+    else:
+        nodes = [n1, n2]
+        assets.append({'type': 'SimpleContract', 'name': 'heat2', 'nodes': [n2], 'args': {'min_cap': -gen.q8(rnd, 1, 8), 'max_cap': 0.0, 'price': gen.price_key(rnd, prices, T)}})
+        a = {'type': 'CHPAsset', 'name': 'zchp3', 'nodes': [n1, n2],
+             'args': {'min_cap': gen.q8(rnd, 0.5, 2), 'max_cap': gen.q8(rnd, 2, 8), 'price': gen.price_key(rnd, prices, T)}}
+        if rnd.random() < 0.4:
+            a['args']['running_costs'] = gen.q8(rnd, 0.125, 1)
+        key = 'sc%d' % len(prices)
+    m = rnd.randint(1, T - 1)                                   # first future step
+    prices[key] = [0.0] * T
+    a['args'][what] = key
+    assets.append(a)
+    s = {'grid': g, 'nodes': nodes, 'prices': prices, 'assets': assets}
+    nS = rnd.choice([1, 2, 2, 3])
+    zero = [rnd.random() < 0.5 for _ in range(nS + 1)]          # scenario 0 = the problem itself
+    if all(zero) or not any(zero):
+        zero[rnd.randrange(nS + 1)] = not zero[0]
+    fut = lambda z: [0.0] * m + [0.0 if z else gen.q8(rnd, 0.25, 4) for _ in range(m, T)]
+    prices[key] = fut(zero[0])
+    samples = gen_samples(rnd, prices, nS, 'perturb', m)
+    for ps, z in zip(samples, zero[1:]):
+        ps[key] = fut(z)
+    return {'scn': s, 'sf': gen.iso(gen.P(g, m)), 'sf_kind': 'mid', 'samples': samples, 'family': 'zero_aux', 'how': 'zero_aux', 'sf_form': 'naive'}
+
+
 def gen_case(rnd):
     r = rnd.random()
-    if r < 0.08:
+    if r < 0.07:
         return gen_straddle_case(rnd)
-    family = 'single' if r < 0.45 else ('multi' if r < 0.8 else 'any')
+    if r < 0.082:
+        return gen_zero_aux_case(rnd)
+    family = 'linked' if r < 0.125 else ('single' if r < 0.37 else ('multi' if r < 0.6 else ('any' if r < 0.75 else 'keyed')))
     grids = [g for g in gen.GRIDS if g[0] in ('h', '2h', '4h', 'd', '30min')]
-    if family == 'single':
+    if family == 'linked':
+        s = gen_linked_portfolio(rnd)
+        if rnd.random() < 0.6:
+            key_costs(rnd, s, 0.5)
+    elif family == 'keyed':
+        # cost parameters other than `price` given as keys; mostly LP (the whole chain is evaluated), some with on/start variables
+        mip = rnd.random() < 0.2
+        s = gen.gen_portfolio(rnd, kinds=KINDS_KEYED_MIP if mip else KINDS_KEYED, tmax=7, tz_prob=0.1, allow_mip=mip, max_assets=3,
+                              nodes_max=3 if mip else 2, allow_freq=rnd.random() < 0.15, allow_periodic=False, allow_wacc=rnd.random() < 0.3,
+                              grids=grids, allow_struct=False, allow_blocks=False)
+        key_costs(rnd, s, 0.7)
+    elif family == 'single':
         kinds = [k for k in KINDS_SINGLE if k != 'scaled1']
-        s = gen.gen_portfolio(rnd, kinds=kinds, tmax=7, tz_prob=0.05, allow_mip=False, max_assets=3, nodes_max=2,
+        s = gen.gen_portfolio(rnd, kinds=kinds, tmax=7, tz_prob=0.12, allow_mip=False, max_assets=3, nodes_max=2,
                               allow_freq=False, allow_periodic=False, allow_wacc=rnd.random() < 0.3, grids=grids,
                               allow_struct=False, allow_blocks=False)
         if rnd.random() < 0.35:   # a scaled asset over a one-row-per-variable base: its `scale` variable sits at step 0
@@ -135,11 +318,14 @@ def gen_case(rnd):
             T = len(g['_pts']) - 1
             s['assets'].append(_scaled_single(rnd, g, s['prices'], T, 'sca%d' % (len(s['assets']) + 1), rnd.choice(s['nodes'])))
     elif family == 'multi':
-        s = gen.gen_portfolio(rnd, kinds=KINDS_MULTI, tmax=7, tz_prob=0.05, allow_mip=False, max_assets=3, nodes_max=3,
+        s = gen.gen_portfolio(rnd, kinds=KINDS_MULTI, tmax=7, tz_prob=0.12, allow_mip=False, max_assets=3, nodes_max=3,
                               allow_freq=rnd.random() < 0.3, allow_periodic=rnd.random() < 0.3, allow_wacc=rnd.random() < 0.3,
                               grids=grids, allow_struct=False, allow_blocks=False)
     else:
-        s = gen.gen_portfolio(rnd, kinds=KINDS_ANY, tmax=7, tz_prob=0.1, allow_mip=True, max_assets=4, nodes_max=3, grids=grids)
+        s = gen.gen_portfolio(rnd, kinds=KINDS_ANY, tmax=7, tz_prob=0.15, allow_mip=True, max_assets=4, nodes_max=3, grids=grids)
+    if family not in ('keyed', 'linked') and rnd.random() < 0.2:
+        key_costs(rnd, s, 0.4)
+    positive_aux(s)
     g = s['grid']
     T = len(g['_pts']) - 1
     step = pd.Timedelta(seconds=g['step_s'])
@@ -152,24 +338,25 @@ def gen_case(rnd):
           'offgrid': gen.P(g, m - 1) + step / 2}[k]
     if not gen.ok_local(sf, g):
         sf, k = gen.P(g, 0), 'first'
-    nS = rnd.choice([0, 1, 1, 1, 2, 2, 3, 3, 4])
-    how = rnd.choice(['perturb', 'perturb', 'perturb', 'perturb_all', 'identical'])
+    if family in ('keyed', 'linked'):
+        nS = rnd.choice([1, 2, 2, 2, 3, 3, 4])
+        how = rnd.choice(['aux_only', 'aux_only', 'price_only', 'variants', 'variants', 'variants', 'perturb', 'perturb_all'])
+    else:
+        nS = rnd.choice([0, 1, 1, 1, 2, 2, 3, 3, 4])
+        how = rnd.choice(['perturb', 'perturb', 'perturb', 'perturb', 'perturb_all', 'perturb_all', 'identical', 'identical', 'variants', 'aux_only'])
     pts = [pd.Timestamp(p) for p in g['_pts'][:-1]]
     first_f = next((i for i, p in enumerate(pts) if p >= sf), len(pts))
-    samples = []
-    for _ in range(nS):
-        ps = {}
-        for key, vals in s['prices'].items():
-            v = list(vals)
-            if how != 'identical' and key.startswith(COST_KEY_PREFIX):
-                lo = 0 if how == 'perturb_all' else first_f
-                for t in range(lo, len(v)):
-                    v[t] = v[t] + gen.q8(rnd, -8, 8)
-                    if not key.startswith('p'):
-                        v[t] = abs(v[t])
-            ps[key] = v
-        samples.append(ps)
-    return {'scn': s, 'sf': gen.iso(sf), 'sf_kind': k, 'samples': samples, 'family': family, 'how': how}
+    samples = gen_samples(rnd, s['prices'], nS, how, first_f)
+    case = {'scn': s, 'sf': gen.iso(sf), 'sf_kind': k, 'samples': samples, 'family': family, 'how': how}
+    # the form in which start_future is handed to make_slp (all forms of one instant must give the same problem):
+    # zone-aware grid: Timestamp in the zone of the grid / naive datetime (refers to the zone of the grid) / naive date (midnight) /
+    # Timestamp of the same instant in another zone;  naive grid: datetime / Timestamp / date
+    if g.get('tz') is not None:
+        case['sf_form'] = rnd.choice(['aware', 'naive', 'naive', 'naive_date', 'other_zone'])
+        case['sf_zone'] = rnd.choice([z for z in OTHER_ZONES if z != g['tz']])
+    else:
+        case['sf_form'] = rnd.choice(['naive', 'naive', 'ts', 'naive_date'])
+    return case
 
 
 def cases(n, seed):
@@ -179,13 +366,32 @@ def cases(n, seed):
 
 
 # ------------------------------------------------------------------ implementation side
-def _start_future(case, tg):
-    sf = pd.Timestamp(case['sf'])
+def sf_forms(case):
+    """the forms of start_future that denote the instant of the case"""
     tz = case['scn']['grid'].get('tz')
-    if tz is not None:
-        sf = sf.tz_localize(tz)     # naive start_future on a tz grid raises TypeError in the assertion (noted in findings)
+    sf = pd.Timestamp(case['sf'])
+    forms = ['aware', 'naive', 'other_zone'] if tz is not None else ['naive', 'ts']
+    if sf == sf.normalize():
+        forms.append('naive_date')
+    return forms
+
+
+def _start_future(case, tg, form=None):
+    """start_future of the case in the given form (default: the form drawn with the case).  A naive date / datetime refers to the
+    zone of the grid (since 6f56425, F-17l; before, make_slp raised TypeError for it on a zone-aware grid)."""
+    sf = pd.Timestamp(case['sf'])     # naive local time of the grid
+    tz = case['scn']['grid'].get('tz')
+    form = form or case.get('sf_form') or ('aware' if tz is not None else 'naive')
+    if form == 'naive_date' and sf == sf.normalize():
+        return sf.date()
+    if form == 'ts':
         return sf
-    return sf.to_pydatetime()
+    if form in ('naive', 'naive_date') or tz is None:
+        return sf.to_pydatetime()
+    sf = sf.tz_localize(tz)
+    if form == 'other_zone':
+        return sf.tz_convert(case.get('sf_zone') or 'UTC')
+    return sf
 
 
 def first_rows(mapping):
@@ -240,6 +446,26 @@ def run_impl(case):
     except Exception as e:
         out['error'] = err_class(e)
         out['error_text'] = '%s: %s' % (type(e).__name__, str(e)[:120])
+    # the same instant in the other forms of start_future (zone-aware grids; a naive grid now and then)
+    out['sf_form'] = case.get('sf_form') or ('aware' if tz is not None else 'naive')
+    out['sf_other'] = []
+    if tz is not None or (len(out['pts']) + len(samples)) % 4 == 0:
+        for form in sf_forms(case):
+            if form == out['sf_form']:
+                continue
+            sf2 = _start_future(case, tg, form)
+            try:
+                with Quiet():
+                    ops2 = make_slp(copy.deepcopy(op), portf, tg, sf2, copy.deepcopy(samples))
+                if 'error' in out:
+                    d = 'builds a problem'
+                else:
+                    j2 = problem_json(ops2)
+                    bad = [k for k in out['slp'] if j2.get(k) != out['slp'][k]] + (['slp column name'] if slp_col_of(ops2) != out['slp_col'] else [])
+                    d = None if not bad else 'gives a problem that differs in %s' % bad
+            except Exception as e:
+                d = None if out.get('error') == err_class(e) else 'raises %s: %s' % (type(e).__name__, str(e)[:100])
+            out['sf_other'].append((form, repr(sf2), d))
     return out
 
 
@@ -325,13 +551,21 @@ def structure_facts(ir):
     by_label, by_pos, first_f, rowless = future_mask(ir)
     multi = bool(op.mapping.index.duplicated().any())
     info = {'rowless': sorted(rowless), 'multi_row': multi, 'first_future': first_f, 'n': len(op.c)}
+    for form, what, d in ir.get('sf_other', []):
+        if d is not None:
+            v.append({'oracle': 'slp_start_future_forms', 'detail': 'start_future given as %s (%s) %s; given as %s (%s, the same instant) make_slp %s' % (
+                form, what, d, ir['sf_form'], repr(ir['sf_obj']), ('raises ' + ir['error_text']) if 'error' in ir else 'builds the problem the model describes'),
+                      'facts': {'kind': 'sf_form', 'form': form, 'main_form': ir['sf_form'], 'tz': ir['rec']['scn']['grid'].get('tz') is not None}})
     if 'error' in ir:
         if ir['error'] == 'index' and first_f >= len(ir['pts']) and ir['sf'] < ir['end']:
             v.append({'oracle': 'slp_builds', 'detail': 'make_slp raises %s: start_future lies strictly inside the last step, the future grid is empty (assertion start_future < end passes)' % ir['error_text'],
                       'facts': {'kind': 'empty_future'}})
         elif ir['error'] == 'index' and any(len(c) != len(op.c) for c in ir['c_samples']):
-            v.append({'oracle': 'cost_samples', 'detail': 'make_slp raises %s: costs_only cost vectors have lengths %s but the problem has %d variables' % (
-                ir['error_text'], [len(c) for c in ir['c_samples']], len(op.c)), 'facts': {'kind': 'cost_vector_length', 'mip': bool(pf.is_mip(op)),
+            za = zero_aux_series(ir['rec']['scn'], ir['samples_np'])
+            v.append({'oracle': 'cost_samples', 'detail': 'make_slp raises %s: costs_only cost vectors have lengths %s but the problem has %d variables%s' % (
+                ir['error_text'], [len(c) for c in ir['c_samples']], len(op.c),
+                '' if not za else '; the sampled %s series %s of asset %s is identically zero in scenarios %s and not in the others (0 = the problem itself): the asset has another number of variables there' % za[0]),
+                      'facts': {'kind': 'zero_aux_series' if za else 'cost_vector_length', 'parameter': za[0][0] if za else None, 'mip': bool(pf.is_mip(op)),
                                 'periodic': any('periodicity' in a.get('args', {}) or 'periodicity' in a.get('base', {}).get('args', {}) for a in ir['rec']['scn']['assets'])}})
         elif ir['error'] == 'assert' and ir['sf'] >= ir['end']:
             pass   # documented rejection
@@ -354,9 +588,25 @@ def structure_facts(ir):
     return v, info
 
 
+def zero_aux_series(scn, samples):
+    """[(parameter, key, asset, scenarios in which the series is identically zero)] for every extra_costs / start_costs given as key
+    whose series is identically zero in some scenarios (0 = the problem's own prices, k = sample k-1) and not in others"""
+    out = []
+    for a in scen.all_asset_specs(scn):
+        for par in ('extra_costs', 'start_costs'):
+            key = a.get('args', {}).get(par)
+            if isinstance(key, str) and key in scn['prices']:
+                z = [not np.any(np.asarray(ser, dtype=float) != 0) for ser in [scn['prices'][key]] + [ps[key] for ps in samples if key in ps]]
+                if any(z) and not all(z):
+                    out.append((par, key, a['name'], [i for i, b in enumerate(z) if b]))
+    return out
+
+
 def cost_sample_check(ir):
-    """`create_cost_samples` (costs_only=True) must give the cost vector of the full set-up with the same prices"""
-    v = []
+    """`create_cost_samples` (costs_only=True) must give the cost vector of the full set-up with the same prices: every sample is
+    set up as a problem of its own (`Portfolio.setup_optim_problem(sample)`), independently of the other samples.
+    Returns (violations, [c of the separately set-up problem of sample k, or None])."""
+    v, fulls = [], []
     rec = ir['rec']
     for k, (ps, cs) in enumerate(zip(ir['samples_np'], ir['c_samples'])):
         try:
@@ -364,11 +614,16 @@ def cost_sample_check(ir):
                 full = rec['portf'].setup_optim_problem(copy.deepcopy(ps), rec['tg'])
         except Exception as e:
             v.append({'oracle': 'cost_samples', 'detail': 'sample %d: full set-up raises %s' % (k, type(e).__name__), 'facts': {'kind': 'cost_samples_setup'}})
+            fulls.append(None)
             continue
+        fulls.append(np.asarray(full.c, dtype=float).copy())
         if len(full.c) != len(cs) or not np.allclose(full.c, cs, rtol=1e-12, atol=1e-12):
-            v.append({'oracle': 'cost_samples', 'detail': 'sample %d: costs_only vector differs from c of the full set-up (lengths %d / %d)' % (k, len(cs), len(full.c)),
+            bad = [int(j) for j in np.where(~np.isclose(full.c, cs, rtol=1e-12, atol=1e-12))[0][:4]] if len(full.c) == len(cs) else []
+            same_price = [k2 for k2 in range(k) if all(np.array_equal(ps[q], ir['samples_np'][k2][q]) for q in ps if q.startswith('p'))]
+            v.append({'oracle': 'cost_samples', 'detail': 'sample %d: costs_only vector differs from c of the separately set-up problem of the sample (lengths %d / %d; first entries %s: %s vs %s; earlier samples that have all `price` series in common with it: %s)' % (
+                k, len(cs), len(full.c), bad, [float(cs[j]) for j in bad], [float(full.c[j]) for j in bad], same_price),
                       'facts': {'kind': 'cost_samples_differ'}})
-    return v
+    return v, fulls
 
 
 def embed(mask, n, s):
@@ -389,7 +644,8 @@ def oracle(case, ir, drv=None, max_k=3):
     obs.update(info)
     if 'error' in ir:
         return viol, obs
-    viol += cost_sample_check(ir)
+    v, c_full = cost_sample_check(ir)
+    viol += v
     rec = ir['rec']
     op, portf, tg = rec['op'], rec['portf'], rec['tg']
     ops = ir['op_slp']
@@ -445,9 +701,13 @@ def oracle(case, ir, drv=None, max_k=3):
     # as make_slp reads it - own cost for future and straddling variables, the problem's cost for the other present variables
     own = mask.copy()
     own[strad] = True
-    cs_read = [op.c.copy()] + [np.where(own, c, op.c) for c in ir['c_samples']]
-    if case.get('how') in ('perturb', 'identical'):
-        cs = [op.c.copy()] + [np.asarray(c, dtype=float).copy() for c in ir['c_samples']]
+    # the scenarios themselves are the separately set-up problems of the samples (`c_full`; the vector create_cost_samples gives for
+    # a sample is compared with it above and is what make_slp / the robust target are fed with)
+    c_true = [cf if (cf is not None and len(cf) == n) else np.asarray(c, dtype=float) for cf, c in zip(c_full, ir['c_samples'])]
+    obs['cost_samples_are_scenario_costs'] = bool(all(len(a) == len(b) and np.allclose(a, b, rtol=1e-12, atol=1e-12) for a, b in zip(c_true, ir['c_samples'])))
+    cs_read = [op.c.copy()] + [np.where(own, c, op.c) for c in c_true]
+    if case.get('how') in HOW_SHARED_PRESENT:
+        cs = [op.c.copy()] + [c.copy() for c in c_true]
         pres_other = [j for j in np.where(~mask)[0] if j not in set(strad)]
         if any(np.abs(c[pres_other] - op.c[pres_other]).max(initial=0.0) > 1e-9 * scale for c in cs[1:]):
             obs['present_costs_differ_although_present_prices_shared'] = True
@@ -497,7 +757,7 @@ def oracle(case, ir, drv=None, max_k=3):
     # the same lower bound computed the way a user of the package would: the present fixed through fix_time_window
     # (index mask of the present steps, values of the scenario-0 optimum), one problem per scenario with its own prices
     try:
-        if case.get('how') in ('perturb', 'identical') and first_f > 0 and eev and eev[0] is not None:
+        if case.get('how') in HOW_SHARED_PRESENT and first_f > 0 and eev and eev[0] is not None:
             win = np.zeros(tg.T, dtype=bool)
             win[:first_f] = True
             vals = []
@@ -579,13 +839,17 @@ def oracle(case, ir, drv=None, max_k=3):
     if out is not None and drv is not None:
         viol += [{'oracle': 'corr', 'detail': d, 'facts': {'kind': 'readout_corr'}} for d in corr_readout(ir, res_slp, out, drv)]
     # ---- robust target
-    cr = [op.c.copy()] + [np.asarray(c, dtype=float) for c in ir['c_samples']]
-    rr = _solve(copy.deepcopy(op), target='robust', samples=[c.copy() for c in cr])
+    #      the way a user does it: the robust target is fed with the problem's own c and the vectors of create_cost_samples (`cr_fed`);
+    #      the worst case of a solution is taken over the scenarios themselves (`cr`: the separately set-up problems)
+    cr_fed = [op.c.copy()] + [np.asarray(c, dtype=float) for c in ir['c_samples']]
+    cr = [op.c.copy()] + [c.copy() for c in c_true]
+    rr = _solve(copy.deepcopy(op), target='robust', samples=[c.copy() for c in cr_fed])
     if isinstance(rr, str):
         obs['robust_status'] = rr
         return viol, obs
     worst = lambda x: float(min(-np.dot(c, x) for c in cr))
     w_r = worst(rr.x)
+    w_fed = float(min(-np.dot(c, rr.x) for c in cr_fed))
     obs['robust_worst'] = w_r
     fw, what = pf.feasibility_violation(op, rr.x)
     if fw > 1e-5:
@@ -606,10 +870,10 @@ def oracle(case, ir, drv=None, max_k=3):
     if abs(float(rr.value) - own) > 2 * tol:
         viol.append({'oracle': 'robust_reported_value', 'detail': 'results.value %.8g of the robust target is not -c.x = %.8g with the problem\'s own c' % (rr.value, own), 'facts': {'kind': 'robust_value'}})
     if drv is not None:
-        m = drv.ok({'op': 'robust_value', 'samples': [[fs(v) for v in c] for c in cr], 'x': [fs(v) for v in rr.x], 'c': [fs(v) for v in op.c]})
-        if not pf.feq(Fraction(m['min']), Fraction(w_r), 1e-9) or not pf.feq(Fraction(m['reported']), Fraction(float(rr.value)), 1e-9):
+        m = drv.ok({'op': 'robust_value', 'samples': [[fs(v) for v in c] for c in cr_fed], 'x': [fs(v) for v in rr.x], 'c': [fs(v) for v in op.c]})
+        if not pf.feq(Fraction(m['min']), Fraction(w_fed), 1e-9) or not pf.feq(Fraction(m['reported']), Fraction(float(rr.value)), 1e-9):
             viol.append({'oracle': 'corr', 'detail': 'robust objective: model min %s / reported %s vs impl %.10g / %.10g' % (
-                float(Fraction(m['min'])), float(Fraction(m['reported'])), w_r, rr.value), 'facts': {'kind': 'robust_corr'}})
+                float(Fraction(m['min'])), float(Fraction(m['reported'])), w_fed, rr.value), 'facts': {'kind': 'robust_corr'}})
     return viol, obs
 
 
@@ -639,12 +903,32 @@ def corr_readout(ir, res, out, drv):
 
 
 # ------------------------------------------------------------------ one case, self test
+def aux_differs_price_equal(case):
+    """some asset has the same `price` series in two of the samples while another sampled series that enters its costs differs"""
+    for a in scen.all_asset_specs(case['scn']):
+        args = a.get('args', {})
+        p = args.get('price')
+        aux = [v for k, v in args.items() if k in ('extra_costs', 'start_costs', 'running_costs', 'costs_time_series') and isinstance(v, str)]
+        if not aux:
+            continue
+        ss = case['samples']
+        for i in range(len(ss)):
+            for j in range(i):
+                if (not isinstance(p, str) or ss[i].get(p) == ss[j].get(p)) and any(ss[i].get(q) != ss[j].get(q) for q in aux):
+                    return True
+    return False
+
+
 def run_case(case, drv, with_oracle=True):
     r = {'evaluated': 1, 'nontrivial': False, 'features': [], 'disagreements': [], 'violations': []}
     f = r['features']
     f += ['family:' + case['family'], 'sf:' + case['sf_kind'], 'nS:%d' % len(case['samples']), 'how:' + case['how']]
+    tzg = case['scn']['grid'].get('tz')
+    f.append('sf_form:%s/%s' % ('tz-grid' if tzg is not None else 'naive-grid', case.get('sf_form') or ('aware' if tzg is not None else 'naive')))
     for a in case['scn']['assets']:
         f.append('asset:' + a['type'] + ('/' + a['base']['type'] if 'base' in a else ''))
+    if aux_differs_price_equal(case):
+        f.append('aux-differs-price-equal')
     ir = run_impl(case)
     if ir['stage'] == 'setup':
         f.append('setup-error:' + ir['setup_error'])
@@ -658,6 +942,8 @@ def run_case(case, drv, with_oracle=True):
     mr = drv.ok(request(case, ir))
     r['disagreements'] += [{'component': 'make_slp', 'detail': d} for d in compare(case, ir, mr)]
     f.append('impl:' + (ir.get('error') or 'ok'))
+    if ir.get('sf_other'):
+        f.append('sf-forms-compared')
     if 'error' not in ir:
         f.append('nF:%s' % ('0' if mr.get('nF') == 0 else ('all' if mr.get('nF') == len(ir['base']['c']) else 'some')))
     if with_oracle:
